@@ -5,8 +5,13 @@
   Every helper is a list function over an ABSTRACT async key / predicate function (`Env`): the element type `α`
   is arbitrary, the key function is any `α → Int`, the predicate any `α → Bool`.  The model follows the Python
   text line by line, including
-    * what kind of iterable the caller passed (`Src`): list, tuple, one-shot iterator (can be consumed once) or
-      an object that is not iterable at all - the code iterates some inputs twice;
+    * what kind of iterable the caller passed (`Src`): list, tuple (and their subclasses), one-shot iterator (can
+      be consumed once), any other re-iterable container (deque, a class with `__iter__`, ..) or an object that is
+      not iterable at all - the code iterates some inputs twice and tests `isinstance(.., (list, tuple))`;
+    * what kind of OBJECT the key / predicate argument is (`FnObj`): `None`, or an async function object with
+      whatever truth value and `== None` answer its class defines - the code must test `is None`, nothing else;
+    * what kind of async function the body retried by `aretry` is (`BodyKind`): one that runs when its task is
+      scheduled (`@asynq()`), or one that runs eagerly inside `fn.asynq(..)` (`@async_proxy()`);
     * the error cases (empty input, no arguments, unexpected keyword, values that cannot be ordered);
     * every `yield` of per-element tasks (`Run.rounds`): one entry per yield, holding for every task issued in
       that yield whether its body blocks on the batch of the harness.  All tasks of one yield that block are
@@ -53,8 +58,27 @@ structure Env (α : Type) where
 /-! ## iterables -/
 
 inductive IterKind where
-  | list | tuple | iterator | nonIter
+  | list | tuple       -- `isinstance(x, (list, tuple))` holds (subclasses included)
+  | iterator           -- one-shot: a second iteration delivers nothing
+  | reiter             -- any other container that can be iterated again and again (deque, user class, ..)
+  | nonIter
   deriving Repr, DecidableEq, Inhabited
+
+/-- the key / predicate / function argument as Python sees the OBJECT: `None`, or an async function object.
+    What `bool(f)` and `f == None` answer is up to the object's class (a callable memo table with `__len__`, a
+    proxy with a liberal `__eq__`); only `f is None` identifies `None`. -/
+inductive FnObj where
+  | none
+  | fn (truthy eqNone : Bool)
+  deriving Repr, DecidableEq, Inhabited
+
+/-- `f is None` -/
+def FnObj.isNone : FnObj → Bool
+  | .none => true
+  | .fn _ _ => false
+
+@[simp] theorem FnObj.isNone_none : FnObj.none.isNone = true := rfl
+@[simp] theorem FnObj.isNone_fn (t e : Bool) : (FnObj.fn t e).isNone = false := rfl
 
 structure Src (α : Type) where
   kind : IterKind
@@ -68,6 +92,7 @@ def Src.iterate (s : Src α) : Except Exc (List α × Src α) :=
   | .list => .ok (s.items, s)
   | .tuple => .ok (s.items, s)
   | .iterator => .ok (s.items, { s with items := [] })
+  | .reiter => .ok (s.items, s)
   | .nonIter => .error .typeError
 
 /-- what one helper invocation did: its outcome, the per-element tasks of every `yield`, `time.sleep` calls -/
@@ -136,8 +161,9 @@ def amap (env : Env α) (s : Src α) : Run α :=
   | (.ok ks, r) => ⟨.ok (.vals ks), r, 0⟩
 
 /-- tools.py:50-63 `afilter` -/
-def afilter (env : Env α) (fnNone : Bool) (s : Src α) : Run α :=
-  if fnNone then
+def afilter (env : Env α) (function : FnObj) (s : Src α) : Run α :=
+  -- `if function is None:`
+  if function.isNone then
     -- `return list(filter(None, sequence))`
     match s.iterate with
     | .error x => ⟨.raised x, [], 0⟩
@@ -162,12 +188,13 @@ def afilterfalse (env : Env α) (s : Src α) : Run α :=
     ⟨.ok (.elems (compress sequence shouldInclude)), [sequence.map env.blocks], 0⟩
 
 /-- tools.py:79-96 `asorted`: sorts (key, value) pairs on the key only -/
-def asorted (env : Env α) (keyNone rev : Bool) (s : Src α) : Run α :=
+def asorted (env : Env α) (key : FnObj) (rev : Bool) (s : Src α) : Run α :=
   -- `values = list(iterable)`
   match s.iterate with
   | .error x => ⟨.raised x, [], 0⟩
   | .ok (values, _) =>
-    if keyNone then
+    -- `if key is None:`
+    if key.isNone then
       -- `keys = values`: the sort compares the values themselves
       match selfKeys env values with
       | none => ⟨.raised .typeError, [], 0⟩
@@ -195,13 +222,14 @@ def maxIterable : MaxArgs α → Except Exc (Src α)
   | .elems xs => .ok ⟨.tuple, xs⟩
 
 /-- tools.py:99-148 `amax` (`isMin = false`) and `amin` (`isMin = true`), which differ in `max` / `min` only -/
-def amaxmin (env : Env α) (isMin badKw keyNone : Bool) (args : MaxArgs α) : Run α :=
+def amaxmin (env : Env α) (isMin badKw : Bool) (keyFn : FnObj) (args : MaxArgs α) : Run α :=
   -- `key_fn = kwargs.pop("key", None)`; `if kwargs: raise TypeError`
   if badKw then ⟨.raised .typeError, [], 0⟩ else
   match maxIterable args with
   | .error x => ⟨.raised x, [], 0⟩
   | .ok iterable =>
-    if keyNone then
+    -- `if key_fn is None:` (a missing `key=` and an explicit `key=None` are the same)
+    if keyFn.isNone then
       -- `return max(iterable)`
       match iterable.iterate with
       | .error x => ⟨.raised x, [], 0⟩
@@ -267,39 +295,57 @@ inductive Attempt where
 def isListed (listed : List Nat) (cls : Nat) : Bool :=
   listed.contains cls || (cls == 4 && listed.contains 1)
 
+/-- what kind of async function the retried body is -/
+inductive BodyKind where
+  | lazy     -- `@asynq()`: `fn.asynq(..)` only builds a task, the body runs (and raises) when the task is yielded
+  | eager    -- `@async_proxy()` and the like: the body runs INSIDE `fn.asynq(..)`, raises there or returns a future
+  deriving Repr, DecidableEq, Inhabited
+
+/-- does the attempt block on the harness batch (`blocking` = the body is one that uses the batch)?  A lazy body
+    blocks before it returns or raises; an eager body hands back a batch item when it returns - a failing eager
+    attempt raised before anything could be yielded. -/
+def attemptBlocks (kind : BodyKind) (blocking : Bool) : Attempt → Bool
+  | .ret _ => blocking
+  | .raise _ => match kind with
+    | .lazy => blocking
+    | .eager => false
+
 /-- the `for i in range(max_tries)` loop, `todo` iterations left, attempt number `i` next.
-    Each attempt is one `yield fn.asynq(..)` of one task. -/
-def retryLoop (listed : List Nat) (script : Nat → Attempt) (maxTries : Nat) (blocking : Bool) :
+    Each attempt is one `ret = yield fn.asynq(*args, **kwargs)` INSIDE the `try`: both the call `fn.asynq(..)`
+    (where an eager body runs and may raise) and the `yield` (where a lazy body runs) are guarded by
+    `except exception_cls`, so the two kinds of body take the same branches.  One entry of `rounds` per attempt. -/
+def retryLoop (listed : List Nat) (script : Nat → Attempt) (maxTries : Nat) (blocking : Bool) (kind : BodyKind) :
     (todo i : Nat) → Run α
   | 0, _ => ⟨.ok .none, [], 0⟩                       -- loop exhausted: falls off the end of the function
   | todo + 1, i =>
+    let blk := attemptBlocks kind blocking (script i)
     match script i with
-    | .ret v => ⟨.ok (.val v), [[blocking]], 0⟩      -- `return ret`
+    | .ret v => ⟨.ok (.val v), [[blk]], 0⟩           -- `return ret`
     | .raise cls =>
       if isListed listed cls then
-        if i + 1 == maxTries then ⟨.raised (.user cls i), [[blocking]], 0⟩   -- `raise`
+        if i + 1 == maxTries then ⟨.raised (.user cls i), [[blk]], 0⟩   -- `raise`
         else
-          let r := retryLoop listed script maxTries blocking todo (i + 1)     -- `time.sleep(sleep)`, next i
-          ⟨r.res, [blocking] :: r.rounds, r.sleeps + 1⟩
-      else ⟨.raised (.user cls i), [[blocking]], 0⟩  -- not caught: propagates at once
+          let r := retryLoop listed script maxTries blocking kind todo (i + 1)     -- `time.sleep(sleep)`, next i
+          ⟨r.res, [blk] :: r.rounds, r.sleeps + 1⟩
+      else ⟨.raised (.user cls i), [[blk]], 0⟩       -- not caught: propagates at once
 
 def scriptAt (script : List Attempt) (i : Nat) : Attempt := script.getD i (.ret 0)
 
 /-- `aretry(exception_cls, max_tries)(fn)(..)`; `assert max_tries > 0` when the decorator is made -/
-def aretry (maxTries : Nat) (listed : List Nat) (script : List Attempt) (blocking : Bool) : Run α :=
+def aretry (maxTries : Nat) (listed : List Nat) (script : List Attempt) (blocking : Bool) (kind : BodyKind) : Run α :=
   if maxTries = 0 then ⟨.raised .assertionError, [], 0⟩
-  else retryLoop listed (scriptAt script) maxTries blocking maxTries 0
+  else retryLoop listed (scriptAt script) maxTries blocking kind maxTries 0
 
 /-! ## one invocation, and what the harness observes of it -/
 
 inductive Call (α : Type) where
   | amap (s : Src α)
-  | afilter (fnNone : Bool) (s : Src α)
+  | afilter (function : FnObj) (s : Src α)
   | afilterfalse (s : Src α)
-  | asorted (keyNone rev : Bool) (s : Src α)
-  | amaxmin (isMin badKw keyNone : Bool) (args : MaxArgs α)
+  | asorted (key : FnObj) (rev : Bool) (s : Src α)
+  | amaxmin (isMin badKw : Bool) (key : FnObj) (args : MaxArgs α)
   | asift (s : Src α)
-  | aretry (maxTries : Nat) (listed : List Nat) (script : List Attempt) (blocking : Bool)
+  | aretry (maxTries : Nat) (listed : List Nat) (script : List Attempt) (blocking : Bool) (kind : BodyKind)
   deriving Repr, DecidableEq, Inhabited
 
 def run (env : Env α) : Call α → Run α
@@ -309,7 +355,7 @@ def run (env : Env α) : Call α → Run α
   | .asorted kn rev s => asorted env kn rev s
   | .amaxmin isMin badKw kn args => amaxmin env isMin badKw kn args
   | .asift s => asift env s
-  | .aretry m l sc b => aretry m l sc b
+  | .aretry m l sc b k => aretry m l sc b k
 
 structure Obs (α : Type) where
   res : Res α
@@ -359,6 +405,13 @@ def attemptRes (script : Nat → Attempt) (i : Nat) : Res α :=
   | .ret v => .ok (.val v)
   | .raise cls => .raised (.user cls i)
 
+/-- the flushes of `n` attempts of which all but the last raised: one flush (of one item) per attempt that
+    blocks.  A lazy blocking body: `n` flushes.  An eager blocking body: one flush if the last attempt returned
+    (its batch item), none for the attempts that raised while the request was being issued. -/
+def retryFlushes (kind : BodyKind) (blocking : Bool) (last : Attempt) (n : Nat) : List Nat :=
+  List.replicate (if attemptBlocks kind blocking (.raise 0) then n - 1 else 0) 1 ++
+    (if attemptBlocks kind blocking last then [1] else [])
+
 def perElem (env : Env α) (res : Res α) (xs : List α) : Obs α :=
   { res := res, flushes := oneFlush env xs, runs := xs.length, sleeps := 0 }
 
@@ -376,25 +429,25 @@ def expected (env : Env α) : Call α → Obs α
   | .amap s =>
     if s.kind = .nonIter then noCalls (.raised .typeError)
     else perElem env (.ok (.vals (s.items.map env.key))) s.items
-  | .afilter fnNone s =>
+  | .afilter function s =>
     if s.kind = .nonIter then noCalls (.raised .typeError)
-    else if fnNone then noCalls (.ok (.elems (s.items.filter env.truthy)))
+    else if function = .none then noCalls (.ok (.elems (s.items.filter env.truthy)))
     else perElem env (.ok (.elems (s.items.filter env.pred))) s.items
   | .afilterfalse s =>
     if s.kind = .nonIter then noCalls (.raised .typeError)
     else perElem env (.ok (.elems (s.items.filter fun x => !env.pred x))) s.items
-  | .asorted keyNone rev s =>
+  | .asorted key rev s =>
     if s.kind = .nonIter then noCalls (.raised .typeError)
-    else if keyNone then
+    else if key = .none then
       if unorderable env s.items then noCalls (.raised .typeError)
       else noCalls (.ok (.elems (stableSort (selfKey env) rev s.items)))
     else perElem env (.ok (.elems (stableSort env.key rev s.items))) s.items
-  | .amaxmin isMin badKw keyNone args =>
+  | .amaxmin isMin badKw key args =>
     if badKw then noCalls (.raised .typeError) else     -- unexpected keyword
     match argItems args with
     | none => noCalls (.raised .typeError)               -- no arguments / one argument that is not iterable
     | some xs =>
-      if keyNone then
+      if key = .none then
         if unorderable env xs then noCalls (.raised .typeError)
         else match firstExt isMin (selfKey env) xs with
           | none => noCalls (.raised .valueError)        -- empty input
@@ -407,12 +460,12 @@ def expected (env : Env α) : Call α → Obs α
     else
       let p := s.items.partition env.pred
       perElem env (.ok (.pair p.1 p.2)) s.items
-  | .aretry maxTries listed script blocking =>
+  | .aretry maxTries listed script blocking kind =>
     if maxTries = 0 then noCalls (.raised .assertionError) else
     let k := leadingListed listed (scriptAt script) maxTries 0
     let n := min (k + 1) maxTries
     { res := attemptRes (scriptAt script) (n - 1),
-      flushes := if blocking then List.replicate n 1 else [],
+      flushes := retryFlushes kind blocking (scriptAt script (n - 1)) n,
       runs := n, sleeps := n - 1 }
 
 /-- `Spec.C14`: which clause of the property an observation violates -/
